@@ -396,8 +396,13 @@ func (v *AudioSamplingRate) From(a aac.SampleRateIndex) {
 
 // Parse the Opus sampling rate to Hz.
 func (v AudioSamplingRate) OpusToHz() int {
-	opusSR := []int{8000, 12000, 16000, 24000, 48000}
-	return opusSR[v]
+	switch v {
+	case AudioSamplingRateNB8kHz, AudioSamplingRateMB12kHz, AudioSamplingRateWB16kHz,
+		AudioSamplingRateSWB24kHz, AudioSamplingRateFB48kHz:
+		return int(v) * 1000
+	default:
+		return 0
+	}
 }
 
 // For Opus, convert aac sample rate index to FLV sampling rate.
